@@ -183,6 +183,20 @@ def run(rep):
             rep.ob("R-C08-siblings", variant, ok, "FastFixedIn %s vs FastFixedOut %s" % (d.get("FastFixedIn"), d.get("FastFixedOut")), "src/asynchro_fast.rs",
                    sample={"variant": variant, "facts": d.get("FastFixedIn")})
     rep.guarded("R-C08-siblings", siblings)
+    # the window is cut from the resampler's history buffer: what it holds (carry between calls) is part of "the nearest input samples"
+    import asyncmodel
+    import C05
+    for t in ("FastFixedIn", "FastFixedOut"):
+        def carry(rep, t=t):
+            m = asyncmodel.extract(rep.ctx.facts, t)
+            C05.rule_shift(rep, t, m)
+            C05.rule_rebase(rep, t, m)
+            C05.rule_preroll(rep, t, m)
+        rep.guarded("R-C05-shift", carry)
+    rep.floor("R-C05-shift", 6)
+    rep.floor("R-C05-rebase", 4)
+    rep.floor("R-C05-preroll", 14)
+    rep.clause("R-C05-shift / -rebase / -preroll", "the history buffer the window is cut from holds the last frames of the stream at the offsets the position assumes (shared with C05)")
     rep.floor("R-C08-poly", 1 + 20 + 8)
     rep.floor("R-C08-window", 10)
     rep.floor("R-C08-siblings", 5)
